@@ -4,6 +4,7 @@ from fractions import Fraction as F
 from core import build, unitgen as G, units_ref as R
 from core.driver import Driver, DriverDied, DriverTimeout
 from core.run import Acc, finish, rng_for, run_shards, NCPU
+import c06
 
 PID = "C05"
 RULE = ("(1) every documented unit: its scale to SI base units, observed as `1 <name> to <base units>` for every typeable name, must be a "
@@ -170,7 +171,7 @@ def shard(p):
                         text += "/"
                         sign = -1
                     else:
-                        sep = rng.choice(["*", "*", " ", " ", "  "])
+                        sep = rng.choice(["*", "*", " ", " ", "  ", c06.blank_run(rng), c06.blank_run(rng)])
                         text += sep
                 pw = rng.choice([1, 1, 1, 2, 3, -1, -2])
                 if id(e) in forced_pw:
@@ -181,10 +182,27 @@ def shard(p):
                 parts_w.append([e["key"], pw * sign, e["prefix"]])
             reqs.append({"op": "query", "q": "1 " + text})
             meta.append(("expr", text, (want_v, want_d, sorted(parts_w))))
+            plain = " ".join(text.split())
+            if plain != text:
+                # the same expression with every blank run replaced by one space: the kind and number of blanks must not matter
+                reqs.append({"op": "query", "q": "1 " + plain})
+                meta.append(("expr-plain", plain, text))
         reps = []
         for i in range(0, len(reqs), 3000):
             reps += d.call_many(reqs[i:i + 3000], timeout=300)
+        prev_items = None
         for (kind, text, want), rep in zip(meta, reps):
+            if kind == "expr-plain":
+                acc.evaluations += 1
+                acc.count("blank_run_vs_single_space_compared")
+                strip = lambda its: [({"ok": [it["ok"]["v"], it["ok"]["u"]]} if "ok" in it else {"err": it["err"]["msg"]}) for it in (its or [])]
+                a, b = strip(prev_items), strip(rep.get("items"))
+                a_ok, b_ok = [x for x in a if "ok" in x], [x for x in b if "ok" in x]
+                if a_ok != b_ok or (len(a) == 1) != (len(b) == 1):
+                    acc.violate("c05:expression-structure:blank-kind", "`1 %s` gives %s but with single spaces (`1 %s`) it gives %s: the kind or number of blanks between unit terms changes the reading" % (want, a[:3], text, b[:3]),
+                                {"unit_expression": want, "build": p["kind"], "with_single_spaces": text, "observed": a, "observed_single_spaces": b})
+                continue
+            prev_items = rep.get("items")
             acc.evaluations += 1
             case = {"unit_expression": text, "build": p["kind"]}
             if "panic" in rep:
@@ -236,6 +254,7 @@ def run(tier, seed):
     t0 = time.time()
     bins = {k: build.build(k)["vdriver"] for k in ("dbg", "rel")}
     words, untypeable = all_words()
+    c06.TOOL_BLANKS[:] = c06.discover_blanks(bins["dbg"])     # the characters this build's lexer treats as blanks (see c06.discover_blanks)
     nc, ne = (3000, 6000) if tier == "quick" else (100000, 200000)
     payloads = [{"seed": seed, "shard": i, "words": words[i::NCPU], "n_concat": nc // NCPU, "n_expr": ne // NCPU, "bin": bins["dbg"], "kind": "dbg"} for i in range(NCPU)]
     acc = run_shards(shard, payloads)
